@@ -5,7 +5,7 @@ CONFIG = {
     "models": ["share", "ledger"],
     "regen": [{"kind": "quantity", "out": "SharePoolGen.lean"}],
     "lean_sources": ["OasisModel/Quantity.lean", "OasisModel/Staking/SharePool.lean", "OasisModel/Staking/Debond.lean",
-                     "OasisModel/Staking/ShareDriver.lean", "OasisModel/Staking/Ledger.lean", "OasisModel/Staking/LedgerDriver.lean",
+                     "OasisModel/Staking/ShareDriver.lean", "OasisModel/Staking/Commission.lean", "OasisModel/Staking/Ledger.lean", "OasisModel/Staking/LedgerDriver.lean",
                      "OasisModel/Governance/Tally.lean", "OasisModel/Proto.lean", "OasisProofs/Helpers/Staking.lean"],
     "drivers": [
         {"name": "sharedrv",
@@ -13,7 +13,12 @@ CONFIG = {
          "thorough": ["-cases", "30000", "-ops", "60"]},
         # the handlers around the pool arithmetic (addEscrow, reclaimEscrow -> debonding pool and
         # queue, debonding completion at epoch transitions, SlashEscrow, rewards with commission)
-        # run in the REAL staking application against the ledger model (C05 correspondence)
+        # run in the REAL staking application against the ledger model (C05 correspondence); 40 % of the
+        # histories are wind-down histories (several delegators and the escrow account itself reclaim from
+        # the same escrow account with the same end epoch; escrow address before/between/after its
+        # delegators; interleaved escrow accounts; slashing before completion); after every epoch
+        # transition the `debond_exactly_once` clause is evaluated on the real ledger with the
+        # debonding-queue model of the C15 theorems (SPEC debond-exactly-once)
         {"name": "ledgerdrv", "corpus": False,
          "quick": ["-cases", "400", "-blocks", "14"],
          "thorough": ["-cases", "8000", "-blocks", "20"]},
@@ -25,8 +30,8 @@ CONFIG = {
     ],
     "assumptions": [
         "pointer arguments are non-nil and dst/src of Move are distinct cells (true at every call site; Move guards the src==n alias itself)",
-        "the debonding queue model takes the MKVS iteration order of debondingQueueKeyFmt (big-endian epoch, delegator, escrow) as given (C03); the surrounding handlers (reclaimEscrow, onEpochChange, SlashEscrow state access) are tied by the C05 ledger correspondence",
+        "the debonding queue model takes the MKVS iteration order of debondingQueueKeyFmt (big-endian epoch, delegator, escrow) as given (C03); the surrounding handlers (reclaimEscrow, onEpochChange, SlashEscrow state access) are tied by the C05 ledger correspondence, and the exactly-once clause is evaluated on every real epoch transition: each queue entry with end epoch <= epoch credited exactly StakeForShares at the debonding pool's price in queue order, the others untouched (DebSt.onEpochChange vs the real dump)",
         "rewards are only ever added to a pool with non-zero balance (AddRewards computes them as a multiple of the balance)",
     ],
-    "explanation": "Theorems over Nat for all pools/amounts/histories; bridge lemmas to the regenerated translation of the Go arithmetic; real SharePool vs model and C15 clauses evaluated on real outcomes for adversarial integers (2^k±1 up to 2^256, maximal rounding remainders, zero balance with outstanding shares).",
+    "explanation": "Theorems over Nat for all pools/amounts/histories; bridge lemmas to the regenerated translation of the Go arithmetic; real SharePool vs model and C15 clauses evaluated on real outcomes for adversarial integers (2^k±1 up to 2^256, maximal rounding remainders, zero balance with outstanding shares); real staking application on wind-down histories with the exactly-once clause evaluated on every epoch transition.",
 }
